@@ -118,12 +118,8 @@ func (t *inProcessTransport) SetEncryption(context.Context, SessionEncryption) e
 	return errors.New("encryption is not supported by in process transport")
 }
 
-// Connected indicates if the transport is open or still
-// has envelopes from the remote party to be received.
 func (t *inProcessTransport) Connected() bool {
-	t.mu.RLock()
-	defer t.mu.RUnlock()
-	return !t.closed || len(t.envChan) > 0
+	return !t.isClosed()
 }
 
 func (t *inProcessTransport) isClosed() bool {
